@@ -238,6 +238,29 @@ impl ConsumerGroup {
         entries
     }
     
+    /// The ids of a consumer's own pending entries after `after`, in id order (at most `count`):
+    /// what XREADGROUP with an explicit id re-reads. Each is counted as delivered once more.
+    pub fn redeliver_own_pending(&self, consumer: &str, after: StreamId, count: Option<usize>) -> Vec<StreamId> {
+        let mut pending = self.pending.write().unwrap();
+        let now = SystemTime::now();
+        
+        let ids: Vec<StreamId> = pending.get_entries_after(after)
+            .into_iter()
+            .filter(|entry| entry.consumer == consumer)
+            .map(|entry| entry.id)
+            .take(count.unwrap_or(usize::MAX))
+            .collect();
+        
+        for id in &ids {
+            if let Some(entry) = pending.get_entry_mut(id) {
+                entry.delivery_count += 1;
+                entry.last_delivery = now;
+            }
+        }
+        
+        ids
+    }
+    
     /// Acknowledge messages, removing them from pending
     pub fn acknowledge(&self, ids: &[StreamId]) -> usize {
         let mut pending = self.pending.write().unwrap();
